@@ -465,10 +465,20 @@ class Queue(Greenlet):
         try:
             envelope, attempts = self.store.get(id)
         except KeyError:
+            self.active_ids.discard(id)
             return
+        except Exception:
+            self.active_ids.discard(id)
+            raise
+        self._pool_spawn('relay', self._attempt, id, envelope, attempts)
+
+    def _dispatch(self, id):
+        # The id is claimed before storage is asked for the message: an
+        # announcement or listing of the same id that arrives while it is
+        # being fetched must not add a second, stale timetable entry.
         if id not in self.active_ids:
             self.active_ids.add(id)
-            self._pool_spawn('relay', self._attempt, id, envelope, attempts)
+            self._pool_spawn('store', self._dequeue, id)
 
     def _check_ready(self, now):
         # Spawning into a bounded store pool may yield; always work on the
@@ -477,7 +487,7 @@ class Queue(Greenlet):
         while self.queued and now >= self.queued[0][0]:
             timestamp, entry_id = self.queued.pop(0)
             self.queued_ids.discard(entry_id)
-            self._pool_spawn('store', self._dequeue, entry_id)
+            self._dispatch(entry_id)
 
     def _wait_store(self):
         while True:
@@ -513,7 +523,7 @@ class Queue(Greenlet):
         self.queued_lock.acquire()
         try:
             for entry in self.queued:
-                self._pool_spawn('store', self._dequeue, entry[1])
+                self._dispatch(entry[1])
             self.queued = []
             self.queued_ids = set()
         finally:
